@@ -876,6 +876,26 @@ def concat_helper(ctx, fn):
     if not (is_call(r) and r[1] in DIGEST_FINAL + MAC_FINAL):
         return None
     h = r[2][0]
+    if is_call(h) and h[1].endswith("::fold") and len(h[2]) == 3:
+        # parts.iter().fold(h0, |h, p| h.chain_update(p)): every part fed in order
+        it, i0, cl = strip(h[2][0]), strip(h[2][1]), h[2][2]
+        while is_call(it) and it[1].split("::")[-1] in ("iter", "into_iter", "copied", "cloned"):
+            it = strip(it[2][0])
+        ok_cl = False
+        if cl[0] == "agg" and cl[1] == "closure" and not cl[4]:
+            cse = ctx.flat.run(cl[2])
+            if cse is not None and not cfg.back_edges(cse.body):
+                cr = strip(cse.ret)
+                ok_cl = is_call(cr) and cr[1] in CHAIN_UPDATE + MAC_CHAIN and tuple(cr[2]) == (("param", 2), ("param", 3)) and sum(1 for i_ in cse.term_info.values() if i_.get("k") == "call") == 1
+        if not ok_cl or it[0] != "param":
+            return None
+        res = None
+        if is_call(i0) and i0[1] in DIGEST_NEW and digest_type_ok(ctx, i0, "Sha1"):
+            res = ("H", None, it[1])
+        elif is_call(i0) and i0[1] in UNWRAP and is_call(i0[2][0]) and i0[2][0][1] in MAC_NEW and digest_type_ok(ctx, i0[2][0], "hmac::HmacCore<"):
+            res = ("HMAC", bexpr(ctx, se, i0[2][0][2][0]), it[1])
+        _helper_cache[key] = res
+        return res
     if h[0] != "phi" or h[1] != se.fn:
         return None
     loops = for_loops(ctx, se)
@@ -1058,6 +1078,9 @@ def closure_value(ctx, cl, args=()):
     cse = ctx.flat.run(cl[2])
     if cse is None or cfg.back_edges(cse.body):
         return None
+    from symex import pure_body
+    if not pure_body(cse):
+        return None     # the closure also writes through a captured reference
     caps = cl[4]
 
     def f(t):
@@ -1069,10 +1092,21 @@ def closure_value(ctx, cl, args=()):
             return ("closure-env",)
         return None
 
-    r = map_term(cse.ret, f)
+    from symex import fold_consts
+    r = fold_consts(map_term(cse.ret, f))
     if any(x == ("closure-env",) or x[0] in ("phi", "param") and x[0] == "phi" for x in walk(r)):
         return None
     return r
+
+
+def value_before_terminator(se, bb, loc):
+    """value of a local at the terminator of block bb (the state at block entry updated by the
+    block's own whole-local assignments)"""
+    v = se.read(se.in_state.get(bb, {}), loc)
+    for (bi, si), (l_, val) in sorted(se.assigns.items()):
+        if bi == bb and l_ == loc:
+            v = val
+    return v
 
 
 def resolve_locals(se, bb, t):
@@ -1141,3 +1175,35 @@ class Refile:
     def undecided(self, rule, fn, role, d, loc=None):
         if self._take(rule, fn):
             return self.rep.undecided(self.rule, fn, rule + ":" + role, d, loc)
+
+
+def option_pipeline(ctx, se, t):
+    """`Some(v0).filter(p).map(f)...`: returns (v0, [("guard", condition term) | ("value", term)])
+    with every closure evaluated on the value flowing through (closures must be pure), or None.
+    The result is Some(last value) exactly when every guard holds, evaluated in order - a
+    `map` closure runs only if the guards before it held."""
+    t = strip(t)
+    chain = []
+    while is_call(t) and t[1].startswith("std::option::Option::<T>::") and t[1].split("::")[-1] in ("filter", "map") and len(t[2]) == 2:
+        mi = se.term_info.get(t[3][1], {})
+        cl = mi["args"][1] if mi.get("k") == "call" and len(mi.get("args", ())) == 2 else t[2][1]
+        chain.append((t[1].split("::")[-1], cl, t[3][1]))
+        t = strip(t[2][0])
+    if not (t[0] == "agg" and t[2] == "std::option::Option" and t[3] == 1 and len(t[4]) == 1) or not chain:
+        return None
+    chain.reverse()
+    v = t[4][0]
+    steps = []
+    for kind, cl, bb in chain:
+        if kind == "filter":
+            c = closure_value(ctx, cl, (("refv", v),))
+            if c is None:
+                return None
+            steps.append(("guard", resolve_locals(se, bb, c)))
+        else:
+            nv = closure_value(ctx, cl, (v,))
+            if nv is None:
+                return None
+            v = resolve_locals(se, bb, nv)
+            steps.append(("value", v))
+    return t[4][0], steps
